@@ -624,7 +624,38 @@ def rule_pure(ctx) -> None:
               + hazards.controls(ctx, "clematis.engine.health", ["memo"]))
 
 
+def rule_exact_leaves(ctx) -> None:
+    """"yields current exactly": whether a leaf changed is decided on its JSON value, not with Python's == / != alone - those
+    equate 0 / False, 1 / 1.0 / True, 0.0 / -0.0 and [1] / [True], so the change would get no entry and the rebuilt payload keeps
+    the base value.  Every test that decides 'modified' in the diff walker combines the comparison with a serialisation-level
+    (json.dumps) or type-level check."""
+    fn = ctx.func(SD + ":_walk_diff")
+    n_dec = 0
+    for x in walk_no_defs(fn.node):
+        if not isinstance(x, ast.If):
+            continue
+        stores = [y for st in x.body for y in walk_no_defs(st) if isinstance(y, ast.Assign) and any(isinstance(t, ast.Subscript) for t in y.targets)]
+        cmps = [c for c in ast.walk(x.test) if isinstance(c, ast.Compare) and len(c.ops) == 1 and isinstance(c.ops[0], (ast.NotEq, ast.Eq)) and all(isinstance(z, ast.Name) for z in (c.left, c.comparators[0]))]
+        if not stores or not cmps:
+            continue
+        n_dec += 1
+        exact = False
+        for c in ast.walk(x.test):
+            if isinstance(c, ast.Call):
+                if call_tail(c) in ("dumps", "type"):
+                    exact = True
+                r = ctx.prog.callee(fn, c)
+                if r and r[0] == "func" and r[1] in ctx.prog.funcs and any(isinstance(z, ast.Call) and call_tail(z) in ("dumps", "type") for z in ast.walk(ctx.prog.funcs[r[1]].node)):
+                    exact = True
+        ctx.check(exact, "C07.CODEC", ctx.okey(f"{fn.qual}/leaf-change-decided-on-json-value"), fn.loc(x.test),
+                  f"`{src(x.test)[:60]}`: the comparison is combined with a serialisation / type level check",
+                  f"a leaf counts as modified only if `{src(x.test)[:40]}`: Python's != equates 0 / False, 1 / 1.0 / True, 0.0 / -0.0 and [1] / [True], so such a change gets no entry in the delta "
+                  "and the payload rebuilt from it keeps the base value - not the current payload exactly")
+    ctx.floor("C07.CODEC", "leaf 'modified' decisions in the diff walker", n_dec, 1)
+
+
 def run(ctx) -> None:
+    rule_exact_leaves(ctx)
     rule_pure(ctx)
     rule_codec(ctx)
     rule_framing(ctx)
